@@ -94,6 +94,9 @@ def decl_cases(maxattrs):
         ent = "x(3) = " + val if val.startswith("[") else "x = " + val
         for attrs in (("parameter",), ("parameter", "public"), ("private", "parameter")):
             yield ("param", typ, "", attrs, ent, True, "none")
+    # ... and an entity-level character length between the name and the value
+    for ent in ("x*5 = 'hello'", "x(2)*3 = ['abc', 'def']", "a0*2 = 'ab', x*5 = 'hello'"):
+        yield ("param", "character", "", ("parameter",), ent, True, "none")
     # dummy arguments
     for typ, sels in DUMMY_TYPES.items():
         for sel in sels:
